@@ -1325,12 +1325,12 @@ class MindsDBParser(Parser):
         targets = p.result_columns
         return Select(targets=targets)
 
-    @_('result_columns COMMA result_column')
+    @_('result_columns COMMA result_column %prec TABLE_WITHOUT_ALIAS')
     def result_columns(self, p):
         p.result_columns.append(p.result_column)
         return p.result_columns
 
-    @_('result_column')
+    @_('result_column %prec TABLE_WITHOUT_ALIAS')
     def result_columns(self, p):
         return [p.result_column]
 
